@@ -63,16 +63,23 @@ func c07Cycle(passes int, shards uint, preempt int, variant int) {
 	other.Counter("x").Inc(v3)
 	var s2 Scope
 	var wg sync.WaitGroup
+	var pre Scope
+	if variant == 2 {
+		pre = root.SubScope("a") // obtained before the passes start
+	}
 	verifrt.Explore(preempt)
 	wg.Add(1)
 	go func() {
 		defer wg.Done()
-		s := root.SubScope("a")
+		s := pre
+		if s == nil {
+			s = root.SubScope("a")
+		}
 		c := s.Counter("x")
 		c.Inc(v1)
 		s.(io.Closer).Close()
 		switch variant {
-		case 0:
+		case 0, 2:
 			s2 = root.SubScope("a")
 			s2.Counter("x").Inc(v2)
 		case 1:
@@ -107,6 +114,7 @@ func c07Cycle(passes int, shards uint, preempt int, variant int) {
 
 func VerifC07Cycle()       { c07Cycle(1, 1, 2, 0) }
 func VerifC07CycleTwice()  { c07Cycle(1, 1, 2, 1) }
+func VerifC07PreObtained() { c07Cycle(1, 1, 2, 2) }
 func VerifC07TwoPasses()   { c07Cycle(2, 1, 2, 0) }
 func VerifC07Shards2()     { c07Cycle(1, 2, 2, 0) }
 func VerifC07Preempt3()    { c07Cycle(1, 1, 3, 0) }
